@@ -64,6 +64,7 @@ type ReplayFile struct {
 	Signature string       `json:"signature"`
 	Message   string       `json:"message"`
 	Tape      []int        `json:"tape"`
+	GenSeed   uint64       `json:"generator_seed,omitempty"` // set instead of a tape when the run never finished
 	TapeKinds []string     `json:"tape_kinds,omitempty"`
 	OrigLen   int          `json:"original_tape_len"`
 	MinExecs  int          `json:"minimiser_executions"`
@@ -171,6 +172,7 @@ func RunWorker(a WorkerArgs) int {
 	pairs := map[string]struct{}{}
 	seenSig := map[string]int{}
 	unlisted := 0
+	var minimiseSpent time.Duration
 	var dump *os.File
 	if p := os.Getenv("VERIF_DUMP_HASHES"); p != "" {
 		dump, _ = os.Create(p)
@@ -184,7 +186,28 @@ func RunWorker(a WorkerArgs) int {
 			break
 		}
 		seed := runSeed(a.Seed, w.Name, idx)
-		res := RunOne(w, sim.NewGenTape(seed), a.Prop, a.Tier, false)
+		res, finished := RunOneGuarded(w, sim.NewGenTape(seed), a.Prop, a.Tier, false)
+		if !finished {
+			// a call into the library never came back: report it and stop this worker (the stuck
+			// goroutine cannot be killed)
+			sig := "does-not-return/" + w.Name
+			vo := ViolOut{Violation: Violation{Prop: a.Prop, Sig: sig, Msg: fmt.Sprintf("run %d of world %s did not finish within %v of wall-clock time: a library call neither returns nor panics (replay regenerates the run from its seed)", idx, w.Name, HangLimit)}, World: w.Name, Count: 1}
+			if ff.known(a.Prop, sig) != nil {
+				vo.Known = true
+			} else {
+				rf := ReplayFile{Property: a.Prop, World: w.Name, Tier: a.Tier, Seed: a.Seed, RunIndex: idx, Signature: sig, Message: vo.Msg, GenSeed: seed}
+				dir := filepath.Join(a.Root, "replays")
+				os.MkdirAll(dir, 0o755)
+				path := filepath.Join(dir, fmt.Sprintf("%s-%s-%d-%d.json", a.Prop, slug(sig), a.Seed, idx))
+				b, _ := json.MarshalIndent(rf, "", " ")
+				os.WriteFile(path, b, 0o644)
+				vo.Replay = path
+			}
+			out.Runs++
+			out.Verdicts["does-not-return"]++
+			out.Violations = append(out.Violations, vo)
+			break
+		}
 		out.Runs++
 		if dump != nil {
 			sig := ""
@@ -231,7 +254,7 @@ func RunWorker(a WorkerArgs) int {
 			out.HarnessErrs = append(out.HarnessErrs, fmt.Sprintf("run %d: %s", idx, res.LeakPanic))
 		}
 		// in-process determinism spot check: re-execute 1 in 50 runs from the recorded tape
-		if out.Runs%50 == 1 && res.LeakPanic == "" {
+		if out.Runs%50 == 1 && res.LeakPanic == "" && !Hung {
 			again := RunOne(w, sim.NewReplayTape(res.Tape), a.Prop, a.Tier, false)
 			out.DetReplays++
 			if again.Hash != res.Hash || (again.Viol == nil) != (res.Viol == nil) {
@@ -259,11 +282,32 @@ func RunWorker(a WorkerArgs) int {
 			vo.Known = true
 		} else {
 			// minimise, re-run with tracing, write the replay file
+			// at most 60 s of minimisation per worker in total (the coordinator's watchdog allows for it)
 			budget, maxExec := 30*time.Second, 2000
 			if !w.Concurrent {
-				budget, maxExec = 60*time.Second, 40000 // histories are long but each execution is cheap
+				maxExec = 40000 // histories are long but each execution is cheap
 			}
+			if left := 60*time.Second - minimiseSpent; left < budget {
+				budget = left
+			}
+			if budget < time.Second {
+				budget = time.Second
+			}
+			t0 := time.Now()
 			min, execs := Minimise(w, a.Prop, a.Tier, res.Tape, v, budget, maxExec)
+			minimiseSpent += time.Since(t0)
+			if Hung {
+				// a candidate tape made the library hang: keep what we have, finish this worker
+				rf := ReplayFile{Property: v.Prop, World: w.Name, Tier: a.Tier, Seed: a.Seed, RunIndex: idx, Signature: v.Sig, Message: v.Msg, Tape: min, OrigLen: len(res.Tape), MinExecs: execs}
+				dir := filepath.Join(a.Root, "replays")
+				os.MkdirAll(dir, 0o755)
+				path := filepath.Join(dir, fmt.Sprintf("%s-%s-%d-%d.json", v.Prop, slug(v.Sig), a.Seed, idx))
+				b, _ := json.MarshalIndent(rf, "", " ")
+				os.WriteFile(path, b, 0o644)
+				vo.Replay = path
+				out.Violations = append(out.Violations, vo)
+				break
+			}
 			final := RunOne(w, sim.NewReplayTape(min), a.Prop, a.Tier, true)
 			if final.Viol == nil || final.Viol.Sig != v.Sig || final.Viol.Prop != v.Prop {
 				// should not happen (Minimise only keeps reproducing candidates); fall back to the original
@@ -300,7 +344,7 @@ func RunWorker(a WorkerArgs) int {
 		}
 	}
 	// samples: worker 0 re-executes its first run indices with tracing
-	if a.Worker == 0 {
+	if a.Worker == 0 && !Hung && out.Verdicts["does-not-return"] == 0 {
 		for k := 0; k < 3; k++ {
 			idx := a.Worker + k*a.Workers
 			res := RunOne(w, sim.NewGenTape(runSeed(a.Seed, w.Name, idx)), a.Prop, a.Tier, true)
@@ -361,7 +405,21 @@ func RunReplay(path string, quiet bool) int {
 	if tier == "" {
 		tier = "quick"
 	}
-	res := RunOne(w, sim.NewReplayTape(rf.Tape), rf.Property, tier, true)
+	tape := sim.NewReplayTape(rf.Tape)
+	if rf.GenSeed != 0 {
+		tape = sim.NewGenTape(rf.GenSeed)
+	}
+	res, finished := RunOneGuarded(w, tape, rf.Property, tier, true)
+	if !finished {
+		if strings.HasPrefix(rf.Signature, "does-not-return/") {
+			fmt.Printf("REPRODUCED property=%s signature=%s\nthe run again did not finish within %v\n", rf.Property, rf.Signature, HangLimit)
+			os.Stdout.Sync()
+			os.Exit(1)
+		}
+		fmt.Printf("the replay did not finish within %v\n", HangLimit)
+		os.Stdout.Sync()
+		os.Exit(3)
+	}
 	if !quiet {
 		fmt.Printf("replay of %s: world=%s property=%s tape=%d choices\n", path, rf.World, rf.Property, len(rf.Tape))
 		for _, l := range schedLines(res.Sched) {
@@ -441,7 +499,7 @@ func RunCoord(a CoordArgs) int {
 			jobs = append(jobs, job{cmd, f, lb})
 		}
 		// watchdog: a worker that overruns its budget by a wide margin is tooling trouble
-		limit := time.Duration((per*3+120)*float64(time.Second))
+		limit := time.Duration((per*3+240)*float64(time.Second))
 		for _, j := range jobs {
 			done := make(chan error, 1)
 			go func() { done <- j.cmd.Wait() }()
